@@ -7,8 +7,6 @@ from harness.lib import sx as SX
 from harness.props import llp_common as L
 
 ID = "C04"
-DISABLED = "work in progress (builder-c04)"
-SETUP_SKIP = True
 COQ_DIR = "C04"
 EXTRA_COQ_DIRS = ["LLP"]
 RUN_MOD = "C04.Run"
@@ -17,7 +15,7 @@ PROOF_TARGETS = ["C04/LemmasText.vo", "C04/LemmasLex.vo", "C04/LemmasCover.vo", 
 PROPS = ["C04/Props.v"]
 ALLOWED_AXIOMS = []
 IMPL_TIMEOUT = 10.0
-COQ_SHARD = 25
+COQ_SHARD = 40
 FUEL = 16            # model budget of the parse loop: 2^FUEL iterations
 
 RULE = ("texts rendered from the harness lexicon (words, numbers, quoted strings whose value excludes the quotes, "
@@ -38,8 +36,11 @@ TRUSTED_BASE = [
     "quantified functions (matcher, span_of) with exactly these bounds as hypotheses; the concrete matcher for the harness lexicon "
     "(coq/C04/Model.v lex_matcher, close_matcher) is proved to satisfy them and is compared with the real re on every run",
     "str.isspace / \\s (the same table, regenerated from the running interpreter into gen/C04_Consts.v), str.split('\\n'), str.rstrip()",
-    "gen/C04_Consts.v: the default end_token_name, LLParser._END_TOKEN_NAME and the default skip list are read from ak/llparser.py "
-    "by harness/props/c04.py:gen_consts (ast, fail closed)",
+    "gen/C04_Consts.v: the default end_token_name, LLParser._END_TOKEN_NAME, the default skip list and the presence of the statement "
+    "'if cur_span_symbol is None and text_line: prev_end_pos = SrcPos(src_name, line_id, 1)' in front of the per-line loop "
+    "(line_start_reset, on which the model's line_start and the soundness lemmas depend) are read from ak/llparser.py by "
+    "harness/props/c04.py:gen_consts (ast, fail closed)",
+    "the suffix symbols of the factorised grammar are never terminals (hypothesis of parse_spans; the constructor reserves names with '__')",
     "LLP/Build.v (constructor pipeline: factorization, tables, recursion check) is used unverified to obtain the parse table of the "
     "correspondence cases; the node-span theorems hold for ANY table (they are about LLP/Parse.v step/mk_node)",
 ]
@@ -73,6 +74,36 @@ def _meth(cls, name):
         if isinstance(n, ast.FunctionDef) and n.name == name:
             return n
     raise ExtractError(f"method {cls.name}.{name} not found")
+
+
+_RESET_STMT = """
+if cur_span_symbol is None and text_line:
+    prev_end_pos = SrcPos(src_name, line_id, 1)
+"""
+
+
+def _line_start_reset(fn):
+    """is  `if cur_span_symbol is None and text_line: prev_end_pos = SrcPos(src_name, line_id, 1)`  the statement
+    in front of the  while  loop of the per-line loop of tokenize?  (True / False; any other shape: fail closed)"""
+    loops = [n for n in ast.walk(fn) if isinstance(n, ast.For) and isinstance(n.target, ast.Tuple)
+             and [getattr(e, "id", None) for e in n.target.elts] == ["line_id", "text_line"]]
+    if len(loops) != 1:
+        raise ExtractError("tokenize: the loop 'for line_id, text_line in ...' was not found")
+    body = loops[0].body
+    idx = [i for i, st in enumerate(body) if isinstance(st, ast.While)]
+    if len(idx) != 1:
+        raise ExtractError("tokenize: the per-line while loop was not found")
+    head = body[:idx[0]]
+    want = ast.dump(ast.parse(_RESET_STMT).body[0])
+    ifs = [st for st in head if isinstance(st, ast.If)]
+    others = [st for st in head if not isinstance(st, ast.If)]
+    if not (len(others) == 1 and isinstance(others[0], ast.Assign) and ast.dump(others[0]) == ast.dump(ast.parse("col = 0").body[0])):
+        raise ExtractError("tokenize: unrecognised statements in front of the per-line while loop")
+    if not ifs:
+        return False
+    if len(ifs) == 1 and ast.dump(ifs[0]) == want:
+        return True
+    raise ExtractError("tokenize: unrecognised line-start statement (the model's line_start must be revised)")
 
 
 def gen_consts(repo):
@@ -112,6 +143,7 @@ def gen_consts(repo):
                         skip = [e.value for e in it.elts]
     if skip is None:
         raise ExtractError("LLParser.__init__: default skip_tokens list not recognised")
+    reset = _line_start_reset(_meth(tk, "tokenize"))
     spaces = [c for c in range(0x110000) if chr(c).isspace()]
     if spaces != [c for c in range(0x3100) if re.match(r"\s", chr(c))]:
         raise ExtractError("str.isspace and \\s disagree")
@@ -119,7 +151,8 @@ def gen_consts(repo):
             "From Coq Require Import ZArith List.\nImport ListNotations.\n"
             f"Definition space_chars : list Z := {SX.cZlist(spaces)}.\n"
             f"Definition end_token_name : list Z := {SX.cstr(end_name)}.\n"
-            f"Definition default_skip : list (list Z) := {SX.clist(SX.cstr(s) for s in skip) if skip else '(@nil (list Z))'}.\n")
+            f"Definition default_skip : list (list Z) := {SX.clist(SX.cstr(s) for s in skip) if skip else '(@nil (list Z))'}.\n"
+            f"Definition line_start_reset : bool := {SX.cbool(reset)}.\n")
     return {"C04_Consts": text}
 
 
@@ -384,8 +417,8 @@ def mk_case(cid, gid, text, as_list, smart=True, keepends=False, note=""):
             "text": t, "note": note}
 
 
-def gen_cases(rng, tier):
-    n = 14000 if tier == "thorough" else 1500
+def gen_cases(rng, tier, n=None):
+    n = n or (14000 if tier == "thorough" else 1500)
     cases = []
     cids = sorted(CONFIGS)
     # fixed probes (every configuration)
@@ -442,7 +475,7 @@ def gen_cases(rng, tier):
 
 
 def search_cases(rng, tier):
-    return gen_cases(rng, "thorough")[:3000]
+    return gen_cases(rng, "thorough", n=3000)
 
 
 def kind(case):
@@ -559,7 +592,7 @@ def coq_case(case, obs):
     else:
         inp = f"(IStr {SX.cstr(t)})"
     return (f"Case (mkCfg {lex} {spans} {syn} {kw}) {skip} {ug} {SX.cbool(case['smart'])} {_csym(case['start'])} "
-            f"{FUEL}%nat {inp}")
+            f"{FUEL}%nat {inp} ({_csx(observation(case, obs))})")
 
 
 def _sx_text(o):
@@ -576,21 +609,35 @@ def _sx_tree(t):
     return [1, SX.s(t[1]), [_sx_tree(c) for c in t[2]], _sx_span(t[3]), _sx_text(t[4])]
 
 
-def expected_sx(case, obs):
+def observation(case, obs):
+    """the canonical observation (nested lists of ints) of what the implementation did"""
     if obs["ctor"][0] == "err":
-        return SX.dumps([3, SX.err(obs["ctor"][1])[1]])
+        return [3, SX.err(obs["ctor"][1])[1]]
     lex = obs["lex"]
     if lex[0] == "err":
         if lex[1] != "LexicalError":
-            return SX.dumps([9, SX.err(lex[1])[1]])
-        return SX.dumps([1, [lex[2][0], lex[2][1]], SX.s(lex[3])])
+            return [9, SX.err(lex[1])[1]]
+        return [1, [lex[2][0], lex[2][1]], SX.s(lex[3])]
     toks = [[SX.s(n), SX.s(v if v is not None else ""), _sx_span(sp), _sx_text(o)] for n, v, sp, o in lex[1]]
     pr = obs["parse"]
     if pr[0] == "ok":
         prs = SX.ok(_sx_tree(pr[1]))
     else:
         prs = SX.err(pr[1])
-    return SX.dumps([0, toks, prs])
+    return [0, toks, prs]
+
+
+def _csx(x):
+    if isinstance(x, bool):
+        return "SZ 1" if x else "SZ 0"
+    if isinstance(x, int):
+        return f"SZ {SX.cZ(x)}"
+    return "SL [" + "; ".join(_csx(e) for e in x) + "]"
+
+
+def expected_sx(case, obs):
+    # the comparison with observation(case, obs) is made inside Coq (C04/Run.v run): () = identical
+    return "()"
 
 
 def in_model(case, obs):
@@ -908,6 +955,30 @@ def shrink_candidates(case):
 TECHNIQUE = ("Coq proof (trace relation of the tokenizer loop + induction over lines; stack invariant of the parse loop) on a "
              "hand-written Gallina model, generic in the compiled regular expressions + per-run correspondence check (vm_compute "
              "vs implementation) + an offset-based reference tokenizer as oracle")
-LEVEL_TEXT = "in progress"
-LEVEL_NOTE = "in progress"
+LEVEL_TEXT = ("Full for the statement's clauses, as theorems about the model for ALL texts (any number of lines >= 1 of any code points, "
+              "str or list input) and ALL tokenizer configurations, the compiled patterns being universally quantified functions "
+              "with the hypotheses 'a match of the main pattern consumes >= 1 character and stays in the line' (matcher_ok) and 'a span "
+              "body match stays in the line' (spans_ok): leaf_text / leaf_text_input (every token, skipped ones included, is tied to the "
+              "pattern matches that produced it, its span is exactly the matched region and get_orig_text returns exactly those "
+              "characters; a span token: opener start .. closer end across lines, the whole region), adjacent_in_line, "
+              "line_start_column, spans_monotone, positions_valid, tokens_cover (per line, the parts of the tokens lying on it "
+              "concatenate to the line), lex_error_line and unclosed_span_error_line (the LexicalError names the line of the "
+              "unmatched character / of the opener and carries that line), tokenize_terminates; for trees: parse_spans (every tree "
+              "returned by LLP/Parse.v parse, for any table, with roll-backs and suffix splicing, covers a token range), mk_node_wf, "
+              "leaf_span, node_span (start of first token .. end of last token), empty_node_span (empty span at the following "
+              "token, which exists), every_node_covered, node_text (get_orig_text of every node is defined and is the region "
+              "between its two positions).  source_shape ties the model to the presence of the line-start statement in the source; "
+              "harness_matcher_ok proves the hypotheses for the concrete matcher that is compared with re on every run.  "
+              "Only tested (correspondence + offset-based reference tokenizer), not theorems: that the reported closer is the FIRST "
+              "place where the span body pattern matches; the converse direction of lex_error_line beyond what tokens_cover + "
+              "tokenize_terminates give (a successful run has matched every character it stood on); ParsingError.src_pos (oracle: it is "
+              "the start of a token); fidelity of the model (1500 cases quick / 14000 thorough, seven configurations, seven grammars).")
+LEVEL_NOTE = ("Trusted: Coq kernel + vm_compute; fidelity of the hand model of _Tokenizer.tokenize / get_orig_text / the skip filter and of "
+              "LLP/Parse.v (checked by correspondence on token lists, LexicalError position and text, tree spans and get_orig_text of every "
+              "token and node, not proved); re, str.isspace/split/rstrip of CPython; the ast extractor and harness.  Outside the "
+              "quantifier and recorded: patterns matching the empty string (the real generator never advances; model: LHang, Example "
+              "tokenize_hangs_on_empty_match), a text of zero lines (list []: $END$ sits on a line that does not exist and get_orig_text "
+              "raises AssertionError).  Observations that are not part of the statement: LexicalError.src_pos carries the 0-based "
+              "column; the VALUE of a multi-line span token omits blank lines of its body.  Print Assumptions: closed under the global "
+              "context for every theorem.")
 DESIGN_REF = "DESIGN.md section 8, C04; section 7 C04a/C04b"
